@@ -12,7 +12,8 @@ MODP = "example.com/c07"
 def sources(state=None):
     v = lambda p: (state or {}).get(p, 0)
     return {
-        "main.go": "package main\n\nimport (\n\t\"encoding/json\"\n\t\"fmt\"\n\t\"reflect\"\n\n\t\"%s/mid\"\n)\n\ntype MainT struct {\n\tMainField int\n\tInner mid.MidT\n}\n\nfunc main() {\n\tv := MainT{%d, mid.New()}\n\tb, _ := json.Marshal(v)\n\tfmt.Println(string(b), reflect.TypeOf(v).Name(), reflect.TypeOf(v).Field(1).Name)\n\tfmt.Printf(\"%%+v\\n\", v)\n\tfmt.Println(mid.Sum(3))\n}\n" % (MODP, 1 + v("main")),
+        "main.go": "package main\n\nimport (\n\t\"encoding/json\"\n\t\"fmt\"\n\t\"reflect\"\n\n\t\"%s/dump\"\n\t\"%s/mid\"\n)\n\ntype MainT struct {\n\tMainField int\n\tInner mid.MidT\n}\n\nfunc main() {\n\tv := MainT{%d, mid.New()}\n\tb, _ := json.Marshal(v)\n\tfmt.Println(string(b), reflect.TypeOf(v).Name(), reflect.TypeOf(v).Field(1).Name)\n\tfmt.Printf(\"%%+v\\n\", v)\n\tfmt.Println(mid.Sum(3), dump.JSON(Extra{\"via a helper that never imports reflect\", 5}))\n}\n\ntype Extra struct {\n\tExtraName string\n\tExtraNum  int\n}\n" % (MODP, MODP, 1 + v("main")),
+        "dump/dump.go": "package dump\n\nimport \"encoding/json\"\n\nfunc JSON(v any) string {\n\tb, _ := json.Marshal(v)\n\treturn string(b)\n}\n",
         "mid/mid.go": "package mid\n\nimport (\n\t\"reflect\"\n\n\t\"%s/mid/leaf\"\n)\n\ntype MidT struct {\n\tMidField string\n\tLeaf leaf.LeafT\n}\n\nfunc New() MidT { return MidT{\"m%d\", leaf.New()} }\n\nfunc Sum(n int64) string { return reflect.TypeOf(MidT{}).String() + \":\" + reflect.ValueOf(leaf.AsmAdd(n, %d)).String() }\n" % (MODP, v("mid"), 5 + v("mid")),
         "mid/leaf/leaf.go": "package leaf\n\nimport \"reflect\"\n\ntype LeafT struct {\n\tLeafField int32\n\tSecond    int64\n}\n\nconst leafConst = 40\n\nfunc New() LeafT {\n\t_ = reflect.TypeOf(LeafT{})\n\treturn LeafT{7, AsmSecond(&LeafT{1, 9})}\n}\n\nfunc AsmAdd(x, y int64) int64\n\nfunc AsmSecond(l *LeafT) int64\n",
         "mid/leaf/leaf_amd64.s": "#include \"textflag.h\"\n#include \"go_asm.h\"\n\nTEXT ·AsmAdd(SB),NOSPLIT,$0-24\n\tMOVQ x+0(FP), AX\n\tADDQ y+8(FP), AX\n\tADDQ $const_leafConst, AX\n\tMOVQ AX, ret+16(FP)\n\tRET\n\nTEXT ·AsmSecond(SB),NOSPLIT,$0-16\n\tMOVQ l+0(FP), AX\n\tMOVQ LeafT_Second(AX), AX\n\tMOVQ AX, ret+8(FP)\n\tRET\n",
@@ -110,8 +111,8 @@ for with_dd in variants:
         ci, fo = job
         faults, kind = cases[ci]
         d = os.path.join(g.root, "c-%s-%d-%s" % (tag, ci, fo))
-        fast_clone(os.path.join(S0, "gocache"), os.path.join(d, "gocache"))
-        fast_clone(os.path.join(S0, "garblecache"), os.path.join(d, "garblecache"))
+        link_clone(os.path.join(S0, "gocache"), os.path.join(d, "gocache"))
+        link_clone(os.path.join(S0, "garblecache"), os.path.join(d, "garblecache"))
         damage(d, faults)
         src = os.path.join(d, "src")
         write_module(src, sources(states[fo]), modpath=MODP)
